@@ -15,6 +15,9 @@ def handle (j : Json) : R Json := do
     | .ok r => pure (Json.mkObj [("ok", jstr r)])
     | .error .notFound => pure (Json.mkObj [("error", "not_found")])
     | .error .ambiguous => pure (Json.mkObj [("error", "ambiguous")])
+  | "class_name" =>
+    let c ← str j "cls"
+    pure (Json.mkObj [("name", jstr (classTaskName (chars c)))])
   | _ => throw "bad_op"
 
 end Drv.Names
